@@ -2096,6 +2096,7 @@ func (h *c20) caseRandom() {
 		// (chan,dir) is sent while the channel may still be unknown.
 		sentCA := make([]bool, nch)
 		early := map[[2]int]bool{}
+		dead := map[int]bool{}
 		nops := 8 + r.Intn(10)
 		for i := 0; i < nops; i++ {
 			ci := r.Intn(nch)
@@ -2168,6 +2169,9 @@ func (h *c20) caseRandom() {
 			default:
 				switch r.Intn(3) {
 				case 0:
+					if dead[ci] {
+						continue
+					}
 					cs.goodChain(c)
 				case 1:
 					cs.chainSet(c.scid, "utxo", c20ScriptMS, h.pub(c.b1), h.pub(c.b2), c.cap, 1)
@@ -2176,6 +2180,7 @@ func (h *c20) caseRandom() {
 					// updates cached afterwards are never replayed concurrently)
 					cs.chainSet(c.scid, "utxo", c20ScriptMS, h.pub(c.b1), h.pub(c.b2), c.cap, 1)
 					cs.prune(c.scid)
+					dead[ci] = true
 				}
 			}
 		}
